@@ -67,6 +67,21 @@ def run(ctx):
                     continue
                 vecs.append({"id": "wfail-%s-%d-order%s" % (c, k, "".join(map(str, order))), "fam": "pipe", "sig": c, "cmd": c, "N": gn, "T": gn,
                              "mode": "gate", "order": order, "failk": k})
+    # fan-out commands: every write fault with the per-query goroutines reporting in every other order
+    frows = rows
+    if n != gn:
+        frows = read_ndjson(kernel.run_vectors(ctx, "pipe", [{"id": "count3-%s" % c, "fam": "pipe", "sig": c, "cmd": c, "N": gn, "T": 2, "mode": "plain"}
+                                                            for c in pipetrace.FANOUT], tag="count3"))
+    for r in frows:
+        c = r["vec"]["cmd"]
+        if c not in pipetrace.FANOUT:
+            continue
+        for k in range(1, r["obs"]["nwrites_ref"] + 1):
+            for oi, order in enumerate(orders):
+                if quick and (oi + k + ctx.seed) % 3:
+                    continue
+                vecs.append({"id": "wfail-%s-%d-order%s" % (c, k, "".join(map(str, order))), "fam": "pipe", "sig": c, "cmd": c, "N": gn, "T": 2,
+                             "mode": "gate", "order": order, "failk": k})
     obs = kernel.run_vectors(ctx, "pipe", vecs, tag="wfail")
     wrows, fails, _ = kernel.validate_obs(ctx, "ObsC19", "ObsC19.cfg", obs, tag="wfail")
     fired = 0
@@ -81,6 +96,10 @@ def run(ctx):
     traced = [r for r in wrows if r["vec"]["cmd"] in pipetrace.TOPO and r["obs"].get("wfailed", 0) > 0
               and not r["obs"].get("timeout") and not r["obs"].get("panic")]
     for r, why in pipetrace.validate_traces(ctx, traced):
+        ctx.add_failure("trace-rejected", r["vec"]["sig"], r["id"], {"vec": r["vec"], "why": why, "observed": r["obs"], "family": "pipe"})
+    ftraced = [r for r in wrows if r["vec"]["cmd"] in pipetrace.FANOUT and r["vec"]["N"] == 3 and r["obs"].get("wfailed", 0) > 0
+               and not r["obs"].get("timeout") and not r["obs"].get("panic")]
+    for r, why in pipetrace.validate_fanout_traces(ctx, ftraced):
         ctx.add_failure("trace-rejected", r["vec"]["sig"], r["id"], {"vec": r["vec"], "why": why, "observed": r["obs"], "family": "pipe"})
     # the binary: /dev/full and strace
     cvecs = []
